@@ -63,6 +63,15 @@ MUTANTS = {
         ('budget_ignored', r'ReceiveChannelUnreliable::new\(channel_config\.channel_id, channel_config\.max_memory_usage_bytes\)', 'ReceiveChannelUnreliable::new(channel_config.channel_id, 0)'),
         ('send_order_wrong_kind', r'channel_send_order\.push\(ChannelOrder::Reliable\(channel_config\.channel_id\)\);', 'channel_send_order.push(ChannelOrder::Unreliable(channel_config.channel_id));'),
     ],
+    'U13': [
+        ('ack_gap_off_by_one', r'let range_end = \(previous_range_start - gap\) - 2;', 'let range_end = (previous_range_start - gap) - 1;'),
+        ('slice_limit_tightened', r'num_slices > 1_000_000 \{(\s+)return Err', r'num_slices > 999_999 {\1return Err'),
+        ('type_byte_wrong', r'b\.put_u8\(3\)\?;', 'b.put_u8(2)?;'),
+        ('count_not_written', r'b\.put_u16\(messages\.len\(\) as u16\)\?;', 'b.put_u16(0)?;'),
+        ('fields_swapped', r'b\.put_varint\(slice\.slice_index as u64\)\?;(\s+)b\.put_varint\(slice\.num_slices as u64\)\?;', r'b.put_varint(slice.num_slices as u64)?;\1b.put_varint(slice.slice_index as u64)?;'),
+        ('empty_reliable_slice_accepted', r'if payload\.is_empty\(\) \{', 'if false {'),
+        ('first_range_inclusive_end', r'ack_ranges\.push\(first_range_start\.\.first_range_end \+ 1\);', 'ack_ranges.push(first_range_start..first_range_end);'),
+    ],
     'U7': [
         ('budget_not_charged', r'\*available_bytes -= message\.len\(\) as u64;', ''),
         ('pack_threshold', r'if small_messages_bytes \+ serialized_size > SLICE_SIZE \{', 'if small_messages_bytes > SLICE_SIZE {'),
